@@ -5460,7 +5460,10 @@ impl<Front: SocketHandler> ConnectionH2<Front> {
         let parts = &mut stream.split(&self.position);
         let was_initial = parts.rbuffer.is_initial();
         let elide_x_real_ip = parts.context.elide_x_real_ip;
-        let status = pkawa::handle_header(
+        // a backend's answer to HEAD may declare a length and carry no content
+        let head_response = self.position.is_client()
+            && parts.context.method == Some(crate::protocol::kawa_h1::parser::Method::Head);
+        let status = pkawa::handle_header_of(
             &mut self.decoder,
             &mut self.prioriser,
             stream_id,
@@ -5471,6 +5474,7 @@ impl<Front: SocketHandler> ConnectionH2<Front> {
             self.flood_detector.config.max_header_list_size,
             self.flood_detector.config.max_header_fields,
             elide_x_real_ip,
+            head_response,
         );
         kawa.storage.clear();
         if let Err((error, global)) = status {
